@@ -19,7 +19,8 @@ META = {
             "starting point and comparing E-step results and updated parameters (1e-9); the property itself is judged on "
             "natural multi-iteration runs (parameters in [0,1], AD sums <= 1, reported log-likelihood non-decreasing, "
             "fully observed data -> relative frequencies)."
-            " EM monotonicity is proved for the abstract model with k tunable blocks (Q decomposes, blockwise M-step optimal); its instantiation by the world table is the remaining gap, and two refuted witnesses (first-iteration LL decrease, dropped example) are known findings.",
+            " EM monotonicity is proved for the abstract model with k tunable blocks (Q decomposes, blockwise M-step optimal); its instantiation by the world table is the remaining gap, and two refuted witnesses (first-iteration LL decrease, dropped example) are known findings."
+            " C24_em_monotone_model: one step of the executable LFI model does not decrease the log-likelihood under decidable side conditions (tunable heads of every AD sum to the available mass; no single tunable head next to constant heads) — both exclusions are necessary.",
     "note": "Trusted: Coq kernel + vm_compute; hand model (sampled correspondence); propositional acyclic programs only; "
             "propagate_evidence=False as in problog/test/test_lfi.py.",
 }
